@@ -132,6 +132,9 @@ func (r *Run) Execute() int {
 			}
 		}
 		step := len(rets)/6 + 1
+		if r.Tier == "thorough" {
+			step = 1 // must-fail twin of every return path: 'ensures false' must not be provable
+		}
 		for i, q := range rets {
 			if i%step == 0 {
 				covers = append(covers, q)
@@ -144,6 +147,9 @@ func (r *Run) Execute() int {
 	// vacuity guards: covers must not be unsat
 	copts := opts
 	copts.TimeoutS = 1
+	if r.Tier == "thorough" {
+		copts.TimeoutS = 3
+	}
 	copts.Parallel = 16
 	copts.Confirm = false
 	copts.Models = false
@@ -327,7 +333,7 @@ func (r *Run) replayUnit(res *ObResult, unit string) (string, bool) {
 	reproduced := false
 	seen := map[string]bool{}
 	for _, w := range loadWitnesses() {
-		if !strings.HasPrefix(w.Obligation, unit+"#") || seen[w.File+"/"+w.Test] {
+		if !strings.HasPrefix(w.Obligation, unit+"#") || seen[w.File+"/"+w.Test] || loadKnown().lookup("*", w.Obligation) != nil {
 			continue
 		}
 		seen[w.File+"/"+w.Test] = true
